@@ -122,6 +122,18 @@ theorem signal_watchers_in_order (fuel : Nat) (st : St) (s : Int) (i : SInv st) 
 example : (sigwatchLoopT 100 (runOps .repaired [.beh ⟨0, 0, [.cancel 1, .signal 3 23 0]⟩, .act (.signal 0 23 0),
       .act (.signal 1 23 0), .act (.signal 2 23 1)]) 23 (some 4)).2 = [4, 1, 2, 5] := by decide +kernel
 
+/-- The repaired walk (a snapshot of the list, entries checked with `watch_is_linked`): every watch of the
+    snapshot that is still in the list when the walk returns normally has been visited … -/
+theorem signal_reaches_watchers_repaired (fuel : Nat) (st : St) (s : Int) (i : SInv st)
+    (hok : (sigSnapLoopT fuel st s st.signals).1.status = .ok) :
+    ∀ b ∈ st.signals, b ∈ (sigSnapLoopT fuel st s st.signals).1.signals → b ∈ (sigSnapLoopT fuel st s st.signals).2 :=
+  fun b hb hfin => sigsnap_complete fuel s st.signals st i hok b hb (i.alloc b hb) hfin
+
+/-- … and the visited watches are a sub-sequence of the list as it was when the walk began (registration
+    order, BIND_FIRST registrations first). -/
+theorem signal_watchers_in_order_repaired (fuel : Nat) (st : St) (s : Int) :
+    (sigSnapLoopT fuel st s st.signals).2.Sublist st.signals := sigsnap_sublist fuel s st.signals st
+
 /-! ### descriptors -/
 
 /-- The translation `revents → cond` is exact, bit for bit. -/
@@ -208,13 +220,11 @@ theorem io_self_cancel_counterexample : (runOps .shipped probeIoSelfCancel).stat
 theorem io_self_cancel_repaired : (runOps .repaired probeIoSelfCancel).status = .ok ∧
     cbLog (runOps .repaired probeIoSelfCancel) = [.cb 0 1 (.io 100 1)] := by decide +kernel
 
-/-- A signal watch that cancels itself: `tickit_evloop_invoke_sigwatches` reads `this->next` afterwards
-    (both variants of the source: no repair is proposed). -/
-theorem signal_self_cancel_counterexample (cfg : Config) (h : cfg = .shipped ∨ cfg = .repaired) :
-    (runOps cfg probeSigSelfCancel).status = .ub .sigLoopThis := by
-  cases h with
-  | inl h => subst h; decide +kernel
-  | inr h => subst h; decide +kernel
+/-- A signal watch that cancels itself: `tickit_evloop_invoke_sigwatches` reads `this->next` afterwards. -/
+theorem signal_self_cancel_counterexample : (runOps .shipped probeSigSelfCancel).status = .ub .sigLoopThis := by
+  decide +kernel
+theorem signal_self_cancel_repaired : (runOps .repaired probeSigSelfCancel).status = .ok ∧
+    cbLog (runOps .repaired probeSigSelfCancel) = [.cb 0 1 .none] := by decide +kernel
 
 /-! ### statements of the property that are not proved (engines.d/C18.json: open_statements) -/
 
